@@ -28,7 +28,8 @@ EXPLANATION = (
     'writes .tag then the leaf fields. R4: field-table entries are (fmt_var(field.name), '
     'validator) built by generate_validator_constructor; a child table is chained to its '
     'parent\'s exactly when the caller exists in the parent (for the public table: whenever a '
-    'parent exists). Decides the structural part, not byte-level JSON.')
+    'parent exists). Decides the structural part, not byte-level JSON.'
+    " R5/R6 (imported from C04-R2 and C08-R2): the primitive encoders (`_strftime` = strftime with the declared format) and the validators' normalisation (Nullable.validate maps only None to None) decide what text reaches the wire.")
 ASSUMPTIONS = [
     'reference/wire_format.json is a faithful transcription of docs/json_serializer.rst',
     'json.dumps renders Python dict/list/str/int/float/bool/None as the JSON kinds of the same name',
@@ -240,3 +241,9 @@ def run(pm, ctx):
               'field validators come from generate_validator_constructor(ns, field.data_type)',
               g_.loc, msg='field validator construction changed',
               key='C05-R4|%s|validators' % g_.qualname)
+    ctx.import_rules(pm, 'C04', {'C04-R2'}, 'C05-R5',
+                     'primitive encodings: timestamps are formatted with the declared format, '
+                     'integers/floats/bytes by their inverse pairs (shared with C04-R2)')
+    ctx.import_rules(pm, 'C08', {'C08-R2'}, 'C05-R6',
+                     'validators return the value unchanged (Nullable delegates every non-null '
+                     'value) so that what is encoded is what was set (shared with C08-R2)')
